@@ -236,6 +236,7 @@ func NewEngine(P *Program, cfg Config) (*Engine, error) {
 	e.res = newResults()
 	e.ps.eqs = map[*Term]uint64{}
 	e.ps.lits = map[*Term]bool{}
+	e.ps.ufApps = map[string][][2]*Term{}
 	registerIntrinsics(e)
 	return e, nil
 }
